@@ -6,6 +6,7 @@ documented SAN writer (`SanSpec.spell`): pure text lemmas, no chess.
 -/
 namespace Chess
 namespace San
+set_option linter.unusedSimpArgs false
 
 /-! ### one-byte characters: the byte cursor is the list index -/
 
@@ -54,12 +55,15 @@ theorem get_two_single (a : Char) (ha : a.utf8Size = 1) : Str.get [a] 0 2 = none
 /-! ### the scanner in phases -/
 
 /-- the part of the scanner after the destination: promotion letter, `+`/`#`, ` e.p.` -/
+def promoAt (s : List Char) (cur : Nat) : Option Piece × Nat :=
+  match (get1 s cur).bind promoOfLetter? with
+  | some p => (some p, cur + 1) | none => (none, cur)
+def sfxAt (s : List Char) (cur : Nat) : Nat :=
+  match get1 s cur with | some '+' => cur + 1 | some '#' => cur + 1 | _ => cur
+def epAt (s : List Char) (cur : Nat) : Bool :=
+  match Str.getFrom s cur with | some rest => rest == " e.p.".toList | none => false
 def tailScan (s : List Char) (cur : Nat) : Option Piece × Bool :=
-  let (promo, cur) := match (get1 s cur).bind promoOfLetter? with
-    | some p => (some p, cur + 1) | none => (none, cur)
-  let cur := match get1 s cur with | some '+' => cur + 1 | some '#' => cur + 1 | _ => cur
-  let ep := match Str.getFrom s cur with | some rest => rest == " e.p.".toList | none => false
-  (promo, ep)
+  ((promoAt s cur).1, epAt s (sfxAt s (promoAt s cur).2))
 
 /-- the `x` test -/
 def takesAt (s : List Char) (cur : Nat) : Bool × Nat :=
@@ -109,10 +113,271 @@ theorem scan_eq (s : List Char) : scan s =
        | some c2 =>
         dsimp only [Option.map_some, Option.bind_some]
         cases hr : charRank? c2 <;> dsimp only [Nat.zero_add] <;>
-        (unfold destAt takesAt tailScan; dsimp only
+        (unfold destAt takesAt tailScan promoAt sfxAt epAt; dsimp only
          cases Str.get s _ _ with
          | none => rfl
          | some t => dsimp only; cases parseSquare t <;> rfl)))
+
+/-! ### each phase on a text given as a list of one-byte characters -/
+
+theorem pieceAt_cons (c : Char) (r : List Char) (h : c.utf8Size = 1) :
+    pieceAt (c :: r) = some (match pieceOfLetter? c with | some p => (p, 1) | none => (Piece.pawn, 0)) := by
+  simp only [pieceAt, get1_cons_zero c r h, Option.map_some]
+
+theorem fileAt_cons_zero (c : Char) (r : List Char) (h : c.utf8Size = 1) :
+    fileAt (c :: r) 0 = some (match charFile? c with | some f => (some f, 1) | none => (none, 0)) := by
+  simp only [fileAt, get1_cons_zero c r h, Option.map_some]
+
+theorem fileAt_cons_succ (c : Char) (r : List Char) (h : c.utf8Size = 1) (i : Nat) :
+    fileAt (c :: r) (i + 1) = (fileAt r i).map fun x => (x.1, x.2 + 1) := by
+  simp only [fileAt, get1_cons_succ c r h, Option.map_map]
+  congr 1; funext c1; simp only [Function.comp]; split <;> rfl
+
+theorem rankAt_cons_zero (c : Char) (r : List Char) (h : c.utf8Size = 1) :
+    rankAt (c :: r) 0 = some (match charRank? c with | some f => (some f, 1) | none => (none, 0)) := by
+  simp only [rankAt, get1_cons_zero c r h, Option.map_some]
+
+theorem rankAt_cons_succ (c : Char) (r : List Char) (h : c.utf8Size = 1) (i : Nat) :
+    rankAt (c :: r) (i + 1) = (rankAt r i).map fun x => (x.1, x.2 + 1) := by
+  simp only [rankAt, get1_cons_succ c r h, Option.map_map]
+  congr 1; funext c1; simp only [Function.comp]; split <;> rfl
+
+theorem takesAt_of_ne (s : List Char) (i : Nat) (h : get1 s i ≠ some 'x') : takesAt s i = (false, i) := by
+  unfold takesAt
+  split
+  · rename_i h'; exact absurd h' h
+  · rfl
+
+theorem takesAt_x (r : List Char) : takesAt ('x' :: r) 0 = (true, 1) := by
+  unfold takesAt
+  rw [get1_cons_zero _ _ (by decide)]
+  rfl
+
+theorem takesAt_cons_zero (c : Char) (r : List Char) (h : c.utf8Size = 1) (hx : c ≠ 'x') :
+    takesAt (c :: r) 0 = (false, 0) := by
+  apply takesAt_of_ne
+  rw [get1_cons_zero c r h]
+  simpa using hx
+
+theorem takesAt_cons_succ (c : Char) (r : List Char) (h : c.utf8Size = 1) (i : Nat) :
+    takesAt (c :: r) (i + 1) = ((takesAt r i).1, (takesAt r i).2 + 1) := by
+  unfold takesAt
+  rw [get1_cons_succ c r h]
+  split <;> rfl
+
+theorem promoAt_cons_succ (c : Char) (r : List Char) (h : c.utf8Size = 1) (i : Nat) :
+    promoAt (c :: r) (i + 1) = ((promoAt r i).1, (promoAt r i).2 + 1) := by
+  unfold promoAt
+  rw [get1_cons_succ c r h]
+  cases (get1 r i).bind promoOfLetter? <;> rfl
+
+theorem sfxAt_cons_succ (c : Char) (r : List Char) (h : c.utf8Size = 1) (i : Nat) :
+    sfxAt (c :: r) (i + 1) = sfxAt r i + 1 := by
+  unfold sfxAt
+  rw [get1_cons_succ c r h]
+  split <;> rfl
+
+theorem epAt_cons_succ (c : Char) (r : List Char) (h : c.utf8Size = 1) (i : Nat) :
+    epAt (c :: r) (i + 1) = epAt r i := by
+  unfold epAt
+  rw [getFrom_cons_succ c r h]
+
+theorem tailScan_cons_succ (c : Char) (r : List Char) (h : c.utf8Size = 1) (i : Nat) :
+    tailScan (c :: r) (i + 1) = tailScan r i := by
+  unfold tailScan
+  rw [promoAt_cons_succ c r h, sfxAt_cons_succ c r h, epAt_cons_succ c r h]
+
+theorem destAt_cons_succ (c : Char) (r : List Char) (h : c.utf8Size = 1) (sf sr : Option (Fin 8)) (i : Nat) :
+    destAt (c :: r) sf sr (i + 1) = (destAt r sf sr i).map fun x => (x.1, x.2.1, x.2.2.1, x.2.2.2 + 1) := by
+  unfold destAt
+  have : i + 1 + 2 = (i + 2) + 1 := by omega
+  simp only [this, get_cons_succ c r h]
+  cases Str.get r i (i + 2) with
+  | none => dsimp only; cases sr <;> cases sf <;> rfl
+  | some t => dsimp only; cases parseSquare t <;> dsimp only <;> cases sr <;> cases sf <;> rfl
+
+theorem destAt_square (q : Sq) (r : List Char) (sf sr : Option (Fin 8)) :
+    destAt (showSquare q ++ r) sf sr 0 = some (q, sf, sr, 2) := by
+  unfold destAt
+  simp only [Nat.zero_add, get_src, parseSquare_showSquare]
+
+/-- nothing that parses as a square follows: the "source" is the destination -/
+theorem destAt_back (T : List Char) (f r : Fin 8)
+    (h : ∀ t, Str.get T 0 2 = some t → ∀ q, parseSquare t ≠ .ok q) :
+    destAt T (some f) (some r) 0 = some (mkSq r f, none, none, 0) := by
+  unfold destAt
+  simp only [Nat.zero_add]
+  cases hg : Str.get T 0 2 with
+  | none => rfl
+  | some t =>
+    dsimp only
+    cases hp : parseSquare t with
+    | ok q => exact absurd hp (h t hg q)
+    | err => rfl
+    | panic => rfl
+
+open SanSpec
+
+theorem charRank?_fileChar : ∀ f : Fin 8, charRank? (fileChar f) = none := by decide
+theorem charFile?_rankChar : ∀ r : Fin 8, charFile? (rankChar r) = none := by decide
+theorem pieceOfLetter?_fileChar : ∀ f : Fin 8, pieceOfLetter? (fileChar f) = none := by decide
+theorem pieceOfLetter?_rankChar : ∀ r : Fin 8, pieceOfLetter? (rankChar r) = none := by decide
+theorem fileChar_ne_x : ∀ f : Fin 8, fileChar f ≠ 'x' := by decide
+theorem rankChar_ne_x : ∀ r : Fin 8, rankChar r ≠ 'x' := by decide
+
+theorem fileCh_eq (s : Sq) : fileCh s = fileChar s.getFile := rfl
+theorem rankCh_eq (s : Sq) : rankCh s = rankChar s.getRank := rfl
+theorem sqName_eq (s : Sq) : Fen.sqName s = showSquare s := rfl
+
+/-- the source parts spelled by a disambiguation -/
+def disambFile (d : Disamb) (src : Sq) : Option (Fin 8) :=
+  match d with | .file => some src.getFile | .both => some src.getFile | _ => none
+def disambRank (d : Disamb) (src : Sq) : Option (Fin 8) :=
+  match d with | .rank => some src.getRank | .both => some src.getRank | _ => none
+
+/-- what may follow the destination: no `x`, and nothing that reads as a square -/
+def TailOK (T : List Char) : Prop :=
+  get1 T 0 ≠ some 'x' ∧ ∀ t, Str.get T 0 2 = some t → ∀ q, parseSquare t ≠ .ok q
+
+theorem destAt_square' (q : Sq) (r : List Char) (sf sr : Option (Fin 8)) :
+    destAt (fileChar q.getFile :: rankChar q.getRank :: r) sf sr 0 = some (q, sf, sr, 2) :=
+  destAt_square q r sf sr
+
+theorem scan_head_pawn (d : Disamb) (src : Sq) (cap : Bool) (dest : Sq) (T : List Char) (hT : TailOK T) :
+    scan (disambText d src ++ (if cap then ['x'] else []) ++ Fen.sqName dest ++ T) =
+      some ⟨.pawn, disambFile d src, disambRank d src, cap, dest, (tailScan T 0).1, (tailScan T 0).2⟩ := by
+  have hx : 'x'.utf8Size = 1 := by decide
+  have hx1 : pieceOfLetter? 'x' = none := by decide
+  have hx2 : charFile? 'x' = none := by decide
+  have hx3 : charRank? 'x' = none := by decide
+  have hT1 := takesAt_of_ne T 0 hT.1
+  have hT2 := fun f r => destAt_back T f r hT.2
+  rw [scan_eq]
+  cases d <;> cases cap <;>
+    simp [disambText, disambFile, disambRank, sqName_eq, showSquare, fileCh_eq, rankCh_eq,
+      pieceAt_cons, fileAt_cons_zero, fileAt_cons_succ, rankAt_cons_zero, rankAt_cons_succ,
+      takesAt_x, takesAt_cons_zero, takesAt_cons_succ, destAt_cons_succ, destAt_square',
+      tailScan_cons_succ, fileChar_size, rankChar_size, hx, hx1, hx2, hx3, hT1, hT2,
+      charFile?_fileChar, charRank?_rankChar, charRank?_fileChar, charFile?_rankChar,
+      pieceOfLetter?_fileChar, pieceOfLetter?_rankChar, fileChar_ne_x, rankChar_ne_x,
+      mkSq_getRank_getFile]
+
+theorem scan_head_piece (c : Char) (pc : Piece) (hc : c.utf8Size = 1) (hpc : pieceOfLetter? c = some pc)
+    (d : Disamb) (src : Sq) (cap : Bool) (dest : Sq) (T : List Char) (hT : TailOK T) :
+    scan ([c] ++ disambText d src ++ (if cap then ['x'] else []) ++ Fen.sqName dest ++ T) =
+      some ⟨pc, disambFile d src, disambRank d src, cap, dest, (tailScan T 0).1, (tailScan T 0).2⟩ := by
+  have hx : 'x'.utf8Size = 1 := by decide
+  have hx2 : charFile? 'x' = none := by decide
+  have hx3 : charRank? 'x' = none := by decide
+  have hT1 := takesAt_of_ne T 0 hT.1
+  have hT2 := fun f r => destAt_back T f r hT.2
+  rw [scan_eq]
+  cases d <;> cases cap <;>
+    simp [disambText, disambFile, disambRank, sqName_eq, showSquare, fileCh_eq, rankCh_eq,
+      pieceAt_cons, fileAt_cons_zero, fileAt_cons_succ, rankAt_cons_zero, rankAt_cons_succ,
+      takesAt_x, takesAt_cons_zero, takesAt_cons_succ, destAt_cons_succ, destAt_square',
+      tailScan_cons_succ, fileChar_size, rankChar_size, hx, hx2, hx3, hT1, hT2, hc, hpc,
+      charFile?_fileChar, charRank?_rankChar, charRank?_fileChar, charFile?_rankChar,
+      fileChar_ne_x, rankChar_ne_x, mkSq_getRank_getFile]
+
+/-! ### the tail -/
+
+def tailText (promo : Option Piece) (sfx : Suffix) (epMark : Bool) : List Char :=
+  (match promo with | some q => [promoLetter q] | Option.none => []) ++ suffixText sfx ++
+  (if epMark then " e.p.".toList else [])
+
+set_option maxRecDepth 100000 in
+theorem tailScan_tailText (promo : Option Piece) (sfx : Suffix) (epMark : Bool)
+    (hp : promo ∈ [none, some .queen, some .rook, some .bishop, some .knight]) :
+    tailScan (tailText promo sfx epMark) 0 = (promo, epMark) := by
+  simp only [List.mem_cons, List.not_mem_nil, or_false] at hp
+  rcases hp with h | h | h | h | h <;> subst h <;> cases sfx <;> cases epMark <;> decide +kernel
+
+def tailOKb (T : List Char) : Bool :=
+  (get1 T 0 != some 'x') &&
+  (match Str.get T 0 2 with
+   | none => true
+   | some t => match parseSquare t with | .ok _ => false | _ => true)
+
+theorem tailOK_of_b (T : List Char) (h : tailOKb T = true) : TailOK T := by
+  unfold tailOKb at h
+  simp only [Bool.and_eq_true, bne_iff_ne] at h
+  refine ⟨h.1, ?_⟩
+  intro t ht q hq
+  rw [ht] at h
+  simp only [hq] at h
+  exact absurd h.2 (by decide)
+
+set_option maxRecDepth 100000 in
+theorem tailOK_tailText (promo : Option Piece) (sfx : Suffix) (epMark : Bool)
+    (hp : promo ∈ [none, some .queen, some .rook, some .bishop, some .knight]) :
+    TailOK (tailText promo sfx epMark) := by
+  apply tailOK_of_b
+  simp only [List.mem_cons, List.not_mem_nil, or_false] at hp
+  rcases hp with h | h | h | h | h <;> subst h <;> cases sfx <;> cases epMark <;> decide +kernel
+
+/-! ### the scanner inverts the writer -/
+
+/-- the text `SanSpec.spell` assembles, over explicit components -/
+def spellText (pc : Piece) (d : Disamb) (src : Sq) (cap : Bool) (dest : Sq) (promo : Option Piece)
+    (sfx : Suffix) (epMark : Bool) : List Char :=
+  (match pieceLetter? pc with | some c => [c] | Option.none => []) ++
+  disambText d src ++
+  (if cap then ['x'] else []) ++
+  Fen.sqName dest ++
+  (match promo with | some q => [promoLetter q] | Option.none => []) ++
+  suffixText sfx ++
+  (if epMark then " e.p.".toList else [])
+
+theorem spellText_eq (pc : Piece) (d : Disamb) (src : Sq) (cap : Bool) (dest : Sq) (promo : Option Piece)
+    (sfx : Suffix) (epMark : Bool) :
+    spellText pc d src cap dest promo sfx epMark =
+      (match pieceLetter? pc with | some c => [c] | Option.none => []) ++ disambText d src ++
+        (if cap then ['x'] else []) ++ Fen.sqName dest ++ tailText promo sfx epMark := by
+  simp only [spellText, tailText, List.append_assoc]
+
+theorem scan_spell_fields (pc : Piece) (d : Disamb) (src : Sq) (cap : Bool) (dest : Sq)
+    (promo : Option Piece) (sfx : Suffix) (epMark : Bool)
+    (hp : promo ∈ [none, some .queen, some .rook, some .bishop, some .knight]) :
+    scan (spellText pc d src cap dest promo sfx epMark) =
+      some ⟨pc, disambFile d src, disambRank d src, cap, dest, promo, epMark⟩ := by
+  have hT := tailOK_tailText promo sfx epMark hp
+  have hS := tailScan_tailText promo sfx epMark hp
+  rw [spellText_eq]
+  cases pc
+  · have := scan_head_pawn d src cap dest _ hT
+    rw [hS] at this
+    simpa [pieceLetter?] using this
+  · have := scan_head_piece 'N' _ (by decide) rfl d src cap dest _ hT
+    rw [hS] at this
+    exact this
+  · have := scan_head_piece 'B' _ (by decide) rfl d src cap dest _ hT
+    rw [hS] at this
+    exact this
+  · have := scan_head_piece 'R' _ (by decide) rfl d src cap dest _ hT
+    rw [hS] at this
+    exact this
+  · have := scan_head_piece 'Q' _ (by decide) rfl d src cap dest _ hT
+    rw [hS] at this
+    exact this
+  · have := scan_head_piece 'K' _ (by decide) rfl d src cap dest _ hT
+    rw [hS] at this
+    exact this
+
+theorem spell_eq_spellText (p : Pos) (m : Move) (d : Disamb) (sfx : Suffix) (epMark : Bool)
+    (pc : Piece) (col : Color) (hb : p.board m.src = some (pc, col)) :
+    spell p m d sfx epMark = spellText pc d m.src (isCapture p m) m.dst m.promo sfx epMark := by
+  unfold spell spellText
+  rw [hb]
+  rfl
+
+theorem scan_spell (p : Pos) (m : Move) (d : Disamb) (sfx : Suffix) (epMark : Bool)
+    (pc : Piece) (col : Color) (hb : p.board m.src = some (pc, col))
+    (hp : m.promo ∈ [none, some .queen, some .rook, some .bishop, some .knight]) :
+    scan (spell p m d sfx epMark) =
+      some ⟨pc, disambFile d m.src, disambRank d m.src, isCapture p m, m.dst, m.promo, epMark⟩ := by
+  rw [spell_eq_spellText p m d sfx epMark pc col hb]
+  exact scan_spell_fields pc d m.src (isCapture p m) m.dst m.promo sfx epMark hp
 
 end San
 end Chess
